@@ -96,14 +96,14 @@ func ge(l lin) cons { return cons{l: l} }
 // ---------- per-function analysis ----------
 
 type progCtx struct {
-	ans       map[*ssa.Function]*fnAn
-	callers   map[*ssa.Function][]ssa.CallInstruction
-	addrTaken map[*ssa.Function]bool
-	succ      map[*ssa.Function][]lin
-	succBusy  map[*ssa.Function]bool
-	nonneg    map[*ssa.Function]map[int]int // 0 unknown, 1 yes, 2 no, 3 busy
-	dynMethods map[string]bool             // method names invoked through some interface
-	assumedNonNeg map[string][]int         // reviewed assumptions: function -> indices of parameters that are never negative
+	ans           map[*ssa.Function]*fnAn
+	callers       map[*ssa.Function][]ssa.CallInstruction
+	addrTaken     map[*ssa.Function]bool
+	succ          map[*ssa.Function][]lin
+	succBusy      map[*ssa.Function]bool
+	nonneg        map[*ssa.Function]map[int]int // 0 unknown, 1 yes, 2 no, 3 busy
+	dynMethods    map[string]bool               // method names invoked through some interface
+	assumedNonNeg map[string][]int              // reviewed assumptions: function -> indices of parameters that are never negative
 }
 
 var pc = &progCtx{
@@ -334,9 +334,9 @@ type fnAn struct {
 	facts   map[*ssa.BasicBlock][]cons
 	loadRep map[*ssa.UnOp]ssa.Value // canonical value for a load
 	reach   map[*ssa.BasicBlock]map[*ssa.BasicBlock]bool
-	inv     []cons                      // always empty: invariants are part of blockFacts (invAt)
+	inv     []cons                     // always empty: invariants are part of blockFacts (invAt)
 	invAt   map[*ssa.BasicBlock][]cons // loop header -> inductive invariants established there
-	pre     []cons // parameter facts that hold at every call site of the module
+	pre     []cons                     // parameter facts that hold at every call site of the module
 }
 
 func isIntLike(t types.Type) (bits int, signed bool, ok bool) {
@@ -1411,15 +1411,15 @@ func lift(fn *ssa.Function, facts []cons, goal lin, depth int) bool {
 }
 
 type bSite struct {
-	ins  ssa.Instruction
-	f    *ssa.Function
-	rel  bool // some available fact shares an atom with an unproven goal (a related check exists)
+	ins      ssa.Instruction
+	f        *ssa.Function
+	rel      bool     // some available fact shares an atom with an unproven goal (a related check exists)
 	relFacts []string // those facts, rendered with local names abstracted (sorted, unique)
-	goal string
-	pos  token.Position
-	fn   string
-	what string
-	ok   bool
+	goal     string
+	pos      token.Position
+	fn       string
+	what     string
+	ok       bool
 }
 
 func boundsAnalyse(fn *ssa.Function, fset *token.FileSet) []bSite {
